@@ -56,11 +56,16 @@ var (
 )
 
 type c15CtlOp struct {
-	Op    string `json:"op"`              // candidates snapctl-hold hook-error snapctl-proceed hook-noaction hold-then-proceed proceed-then-hold refresh advance tobound
+	Op    string `json:"op"`              // candidates snapctl-hold hook-error snapctl-proceed hook-noaction hold-then-proceed proceed-then-hold hook-run refresh advance tobound
 	G     int    `json:"g,omitempty"`     // gating snap (0/1) or refreshed snap (0..3)
 	Snaps []int  `json:"snaps,omitempty"` // candidates
 	Secs  int64  `json:"secs,omitempty"`
 	Pick  int    `json:"pick,omitempty"`
+	// hook-run: one run of the gate-auto-refresh hook of snap G: the snapctl calls
+	// the hook makes ("hold" / "proceed", in order) and whether the hook then exits
+	// non-zero (handler Error path) or zero (handler Done)
+	Calls []string `json:"calls,omitempty"`
+	Fail  bool     `json:"fail,omitempty"`
 }
 
 type c15CtlCase struct {
@@ -78,23 +83,68 @@ func c15CtlGen(t *rapid.T) c15CtlCase {
 	for i := 0; i < nops; i++ {
 		var op c15CtlOp
 		switch k := rapid.IntRange(0, 99).Draw(t, "opkind"); {
-		case k < 28:
+		case k < 26:
+			op = c15CtlGenHookRun(t, rapid.IntRange(0, 1).Draw(t, "g"))
+		case k < 34:
+			// a gating snap over several auto-refresh attempts: hold granted, the
+			// allowance runs out, the next hook runs ask again (and may fail)
+			g := rapid.IntRange(0, 1).Draw(t, "g")
+			if rapid.IntRange(0, 2).Draw(t, "other") != 0 {
+				// ... affected by an update of its base or of the kernel (48 h allowance)
+				other := rapid.IntRange(2, 3).Draw(t, "which")
+				if rapid.Bool().Draw(t, "fresh") {
+					c.Ops = append(c.Ops, c15CtlOp{Op: "refresh", G: other})
+				}
+				cands := []int{other}
+				for _, s := range c15GenSubset(t, 4, "more") {
+					if s != other {
+						cands = append(cands, s)
+					}
+				}
+				c.Ops = append(c.Ops, c15CtlOp{Op: "candidates", Snaps: cands})
+			}
+			c.Ops = append(c.Ops, c15CtlOp{Op: "hook-run", G: g, Calls: []string{"hold"}, Fail: rapid.Bool().Draw(t, "fail0")})
+			runs := rapid.IntRange(1, 3).Draw(t, "runs")
+			for j := 0; j < runs; j++ {
+				var secs int64
+				switch rapid.IntRange(0, 3).Draw(t, "gap") {
+				case 0:
+					secs = rapid.Int64Range(1, 47).Draw(t, "hours") * 3600
+				case 1:
+					secs = 48*3600 + rapid.Int64Range(-1, 1).Draw(t, "off")
+				case 2:
+					secs = rapid.Int64Range(48*3600, 60*3600).Draw(t, "secs")
+				default:
+					secs = 3600
+				}
+				c.Ops = append(c.Ops, c15CtlOp{Op: "advance", Secs: secs})
+				run := c15CtlGenHookRun(t, g)
+				if rapid.IntRange(0, 2).Draw(t, "askagain") != 0 {
+					run.Calls = []string{"hold"}
+				}
+				c.Ops = append(c.Ops, run)
+				if rapid.Bool().Draw(t, "look") {
+					c.Ops = append(c.Ops, c15CtlOp{Op: "advance", Secs: 3600})
+				}
+			}
+			op = c15CtlGenHookRun(t, g)
+		case k < 44:
 			op = c15CtlOp{Op: "snapctl-hold", G: rapid.IntRange(0, 1).Draw(t, "g")}
-		case k < 38:
-			op = c15CtlOp{Op: "hook-error", G: rapid.IntRange(0, 1).Draw(t, "g")}
-		case k < 43:
-			op = c15CtlOp{Op: "snapctl-proceed", G: rapid.IntRange(0, 1).Draw(t, "g")}
-		case k < 46:
-			op = c15CtlOp{Op: "hook-noaction", G: rapid.IntRange(0, 1).Draw(t, "g")}
 		case k < 49:
+			op = c15CtlOp{Op: "hook-error", G: rapid.IntRange(0, 1).Draw(t, "g")}
+		case k < 52:
+			op = c15CtlOp{Op: "snapctl-proceed", G: rapid.IntRange(0, 1).Draw(t, "g")}
+		case k < 54:
+			op = c15CtlOp{Op: "hook-noaction", G: rapid.IntRange(0, 1).Draw(t, "g")}
+		case k < 56:
 			op = c15CtlOp{Op: "hold-then-proceed", G: rapid.IntRange(0, 1).Draw(t, "g")}
-		case k < 53:
+		case k < 59:
 			op = c15CtlOp{Op: "proceed-then-hold", G: rapid.IntRange(0, 1).Draw(t, "g")}
-		case k < 60:
+		case k < 65:
 			op = c15CtlOp{Op: "candidates", Snaps: c15GenSubset(t, 4, "candidates")}
-		case k < 70:
+		case k < 74:
 			op = c15CtlOp{Op: "refresh", G: rapid.IntRange(0, 3).Draw(t, "snap")}
-		case k < 90:
+		case k < 91:
 			op = c15CtlOp{Op: "advance", Secs: c15GenAdvance(t)}
 		default:
 			op = c15CtlOp{Op: "tobound", Pick: rapid.IntRange(0, 5).Draw(t, "pick"), Secs: rapid.Int64Range(-1, 1).Draw(t, "off")}
@@ -102,6 +152,30 @@ func c15CtlGen(t *rapid.T) c15CtlCase {
 		c.Ops = append(c.Ops, op)
 	}
 	return c
+}
+
+// c15CtlGenHookRun draws one hook run: which snapctl calls the hook makes and how
+// it exits.  Whether a --hold is granted or refused is decided by the history.
+func c15CtlGenHookRun(t *rapid.T, g int) c15CtlOp {
+	op := c15CtlOp{Op: "hook-run", G: g}
+	switch k := rapid.IntRange(0, 99).Draw(t, "calls"); {
+	case k < 54:
+		op.Calls = []string{"hold"}
+	case k < 68:
+		// no snapctl call at all
+	case k < 76:
+		op.Calls = []string{"proceed"}
+	case k < 83:
+		op.Calls = []string{"hold", "proceed"}
+	case k < 90:
+		op.Calls = []string{"proceed", "hold"}
+	case k < 96:
+		op.Calls = []string{"hold", "hold"}
+	default:
+		op.Calls = []string{"proceed", "hold", "proceed"}
+	}
+	op.Fail = rapid.Bool().Draw(t, "fail")
+	return op
 }
 
 type c15CtlRun struct {
@@ -268,6 +342,80 @@ func (w *c15CtlRun) apply(i int, op c15CtlOp) error {
 			return verifkit.Violatef("%s: hook handler Done failed: %v", when, err)
 		}
 		r.label("proceed-then-hold")
+	case "hook-run":
+		// action = what the hook context has cached when the hook exits: the last
+		// snapctl refresh --hold / --proceed call, whether or not the hold was granted
+		action, shape, refused48 := "", "nocall", false
+		calls := op.Calls
+		if len(calls) > 4 {
+			calls = calls[:4]
+		}
+		for ci, call := range calls {
+			switch call {
+			case "hold":
+				plan := r.planHold(g, aff)
+				if verr := holdViaSnapctl(); verr != nil {
+					return verr
+				}
+				action = "hold"
+				if len(plan.bad) > 0 {
+					shape = "hold-refused"
+					for _, a := range plan.aff {
+						if plan.bad[c15Names[a]] && r.now.Before(r.last[a].Add(c15MaxAny)) {
+							refused48 = true // the 48 h episode allowance (not the 90 days) ran out
+						}
+					}
+				} else {
+					shape = "hold-ok"
+				}
+			case "proceed":
+				if _, err := snapctl("refresh", "--proceed"); err != nil {
+					return verifkit.Violatef("%s: snapctl refresh --proceed of %s failed: %v", when, c15Names[g], err)
+				}
+				action, shape = "proceed", "proceed"
+			default:
+				continue
+			}
+			// a granted hold is in force at once, a refused one drops the requester's
+			// holds at once, --proceed changes nothing before the hook is done
+			if verr := r.check(fmt.Sprintf("%s after call %d (--%s), hook still running", when, ci, call)); verr != nil {
+				return verr
+			}
+		}
+		if !op.Fail {
+			// hook exits 0: hold stays as requested; --proceed or no call = proceed
+			if err := done(); err != nil {
+				return verifkit.Violatef("%s: hook handler Done failed: %v", when, err)
+			}
+			if action != "hold" {
+				proceedModel()
+			}
+			r.label("run:" + shape + "+done")
+			break
+		}
+		// hook exits non-zero: "nothing to do if the hook already requested hold"
+		// (granted or refused); otherwise the failure is taken as a hold request
+		// with the default duration
+		var plan c15HoldPlan
+		if action != "hold" {
+			plan = r.planHold(g, aff)
+		}
+		w.unlock()
+		ignore, err := handler.Error(errors.New("hook failed"))
+		w.lock()
+		if err != nil || !ignore {
+			return verifkit.Violatef("%s: hook handler Error of %s returned (%v, %v)", when, c15Names[g], ignore, err)
+		}
+		if action != "hold" {
+			if verr := r.judgeHold(when, plan, false, 0, nil); verr != nil {
+				return verr
+			}
+			r.label("via-hook-error")
+		}
+		r.label("run:" + shape + "+error")
+		if shape == "hold-refused" && refused48 {
+			r.label("run:refused-48h+error")
+		}
 	case "hook-error":
 		plan := r.planHold(g, aff)
 		w.unlock()
@@ -322,6 +470,12 @@ func c15CtlDesc(c c15CtlCase) string {
 				sb.WriteString(nm(s))
 			}
 			sb.WriteString("]")
+		case "hook-run":
+			exit := "exit0"
+			if op.Fail {
+				exit = "exit1"
+			}
+			fmt.Fprintf(&sb, " hook(%s:%s;%s)", nm(op.G), strings.Join(op.Calls, ","), exit)
 		default:
 			fmt.Fprintf(&sb, " %s(%s)", op.Op, nm(op.G))
 		}
@@ -393,6 +547,8 @@ func TestVerifC15Snapctl(t *testing.T) {
 		Run: c15CtlRunCase,
 		Floors: map[string]float64{
 			"via-snapctl": 0.5, "via-hook-error": 0.3, "rehold": 0.15, "past-bound": 0.2,
+			"run:hold-ok+done": 0.2, "run:hold-ok+error": 0.2, "run:hold-refused+done": 0.15, "run:hold-refused+error": 0.2,
+			"run:nocall+error": 0.12, "run:nocall+done": 0.12, "run:proceed+error": 0.1, "run:refused-48h+error": 0.05,
 			"expired-48h": 0.05, "proceed-unholds": 0.1,
 		},
 		NonTrivialFloor: 0.4,
